@@ -798,6 +798,8 @@ func (t *blockTree) parseStartingMarkers(line string, newParagraph bool) (string
 		if bqMarker := blockquoteMarkerRegexp.FindString(line); bqMarker != "" {
 			line = line[len(bqMarker):]
 			containers = append(containers, container{typ: blockquote})
+			// The content of a new blockquote cannot continue a paragraph.
+			newParagraph = true
 			continue
 		}
 
